@@ -9,7 +9,7 @@ from pandapipes.component_models import standard_branch_wo_internals_result_look
 from pandapipes.component_models.abstract_models.branch_wo_internals_models import \
     BranchWOInternalsComponent
 from pandapipes.component_models.junction_component import Junction
-from pandapipes.idx_branch import QEXT, D, LOSS_COEFFICIENT as LC, DO
+from pandapipes.idx_branch import QEXT, D, LOSS_COEFFICIENT as LC, DO, AREA
 from pandapipes.pf.pipeflow_setup import get_fluid
 from pandapipes.pf.result_extraction import extract_branch_results_without_internals
 
@@ -57,6 +57,7 @@ class HeatExchanger(BranchWOInternalsComponent):
         heat_exchanger_pit[:, QEXT] = net[tbl].qext_w.values
         heat_exchanger_pit[:, D] = net[tbl].inner_diameter_mm.values / 1000.
         heat_exchanger_pit[:, DO] = heat_exchanger_pit[:, D]
+        heat_exchanger_pit[:, AREA] = heat_exchanger_pit[:, D] ** 2 * np.pi / 4
 
     @classmethod
     def extract_results(cls, net, options, branch_results, mode):
